@@ -240,3 +240,19 @@ done:
 	*dst = v
 	return 1, nil
 }
+
+// DateREFind models (*regexp.Regexp).FindStringSubmatch for the pattern
+// `(\d\d\d\d-\d\d-\d\d)[.]json$` (the only regexp in internal/upload): the pattern has a
+// fixed length of 15 and is anchored at the end, so the only candidate is the suffix.
+func DateREFind(s string) []string {
+	if len(s) < 15 {
+		return nil
+	}
+	t := s[len(s)-15:]
+	d := func(c byte) bool { return c >= '0' && c <= '9' }
+	ok := d(t[0]) && d(t[1]) && d(t[2]) && d(t[3]) && t[4] == '-' && d(t[5]) && d(t[6]) && t[7] == '-' && d(t[8]) && d(t[9]) && t[10:] == ".json"
+	if !ok {
+		return nil
+	}
+	return []string{t, t[:10]}
+}
